@@ -121,7 +121,11 @@ impl<C: Config> InputSession<C> {
         engine.clear_dirtied_queries();
 
         transaction = engine
-            .dirty_propagate_from_batch(dirty_batch.into_iter(), transaction)
+            .dirty_propagate_from_batch(
+                dirty_batch.into_iter(),
+                false,
+                transaction,
+            )
             .await;
 
         engine.submit_write_buffer(transaction);
